@@ -7,3 +7,4 @@ pub mod huffman;
 pub mod qpack;
 pub mod static_table;
 pub mod varint;
+pub mod wire;
